@@ -2,7 +2,7 @@
 from common import *
 import os
 TRUSTED_BASE = ['model of adddynamicrealmserver extraction and dynamicconfig query construction in coq/Model/Route.v',
-                'harness/hroute.inc: querysrv/querynaptr replaced by recorders at link time; the external command is a shell script that records its argument vector']
+                'harness/hroute.inc: querysrv/querynaptr replaced by recorders at link time; harness/hdns.c: the real querynaptr/querysrv with the resolver entry points (res_nquery, res_nsearch, res_query, res_search) replaced by recorders; the external command is a shell script that records its argument vector']
 ASSUMPTIONS = ['C locale (isalnum on ASCII)']
 RULE = 'User-Names over every octet in the realm part (all 256 single-octet realms; thorough: all two-octet realms over a 40-octet alphabet), lengths 0..253, multiple @, shell metacharacters, whitespace, leading -, non-ASCII, embedded NUL; commands srv:, naptr:, external; distinct = distinct implementation observation lines'
 def generate(rng, tier):
@@ -37,4 +37,16 @@ def generate(rng, tier):
             k = rng.randrange(1, len(seq))
             seq = seq[:k] + [b'expire'] + seq[k:] + [rng.choice([b'x@`id`;$(reboot)@a.example', b'u@;bad@a.example', b'p@q@b.example', b'u@a.example', b'z@;x@c.test'])]
         ops.append('op dynrealm %s %s' % (hx(cmds[0].encode()), ' '.join('expire' if x == b'expire' else hx(x) for x in seq)))
-    return [(cid, ['cfg nopipe'] + l) for cid, l in batch(ops, 'dyn', 25)]
+    # the query names reach the resolver as they are: one exact query (no search list, no default domain appended),
+    # whatever the number of dots -- single labels, names that do not resolve, trailing dot or not
+    qops = []
+    names = [b'intranet', b'a', b'example.org', b'no-such-realm.example.org', b'_radsec._tcp.intranet', b'_radsec._tcp.example.org',
+             b'example.org.', b'x-y.example.net', b'a.b.c.d.e.f']
+    for nm in names:
+        for kind in ('naptr', 'srv'):
+            qops.append('op query %s %s' % (kind, hx(nm)))
+    for _ in range(200 if tier == 'thorough' else 20):
+        labels = [bytes(rng.choice(b'abcxyz019-_') for _ in range(rng.randrange(1, 12))) for _ in range(rng.randrange(1, 6))]
+        qops.append('op query %s %s' % (rng.choice(['naptr', 'srv']), hx(b'.'.join(labels) + rng.choice([b'', b'', b'.']))))
+    qcases = [(cid, ['harness hdns'] + l) for cid, l in batch(qops, 'dnsq', 20)]
+    return [(cid, ['cfg nopipe'] + l) for cid, l in batch(ops, 'dyn', 25)] + qcases
